@@ -19,7 +19,7 @@ DISTINCT_RULE = (
     "around every threshold for all currencies, ladders, sides, order types, min_bet_validation on/off; distinct = distinct (function, input) pairs evaluated"
 )
 RULES = ["nearest", "ticks-away", "validation"]
-MINIMA = {"quick": {"rule_nearest": 1100000, "rule_ticks-away": 280000, "rule_validation": 100000}, "thorough": {"rule_nearest": 1100000, "rule_ticks-away": 280000, "rule_validation": 400000}}
+MINIMA = {"quick": {"rule_nearest": 1200000, "rule_ticks-away": 280000, "rule_validation": 100000}, "thorough": {"rule_nearest": 1200000, "rule_ticks-away": 280000, "rule_validation": 400000}}
 ASSUMPTIONS = [
     "the exchange's increment table as written in vf/ladder.py (independent of flumine.utils.PRICES)",
     "currency minimums: betfairlightweight.metadata.currency_parameters (outside flumine)",
@@ -33,6 +33,7 @@ def plan(tier, seed):
     for lo in range(0, 1100001, step):
         cases.append({"kind": "nearest", "lo": lo, "hi": min(lo + step, 1100001)})
     cases.append({"kind": "nearest_mid"})
+    cases.append({"kind": "nearest_ladders"})
     for lo in range(0, 350, 10):
         cases.append({"kind": "ticks", "lo": lo, "hi": min(lo + 10, 350)})
     from betfairlightweight.metadata import currency_parameters
@@ -47,14 +48,16 @@ def plan(tier, seed):
     return cases
 
 
-def _nearest_ok(x_frac, res, out, raw):
+def _nearest_ok(x_frac, res, out, raw, lad_c=None, tags=None):
     """res must be a classic tick at minimal distance from x (ties allowed), clamped to [1.01, 1000]."""
     if res != res:
         return  # the call raised; already reported
+    lad = L.CLASSIC_C if lad_c is None else lad_c
+    tags = tags or {}
     c = res * 100
     ci = int(round(c))
-    if abs(c - ci) > 1e-7 or ci not in _TICKSET:
-        out.v("nearest-not-a-tick", {}, x=raw, result=res)
+    if abs(c - ci) > 1e-7 or ci not in (_TICKSET if lad_c is None else _set_of(lad_c)):
+        out.v("nearest-not-a-tick", dict(tags), x=raw, result=res)
         return
     x100 = x_frac * 100
     if x100 <= 101:
@@ -62,15 +65,23 @@ def _nearest_ok(x_frac, res, out, raw):
     elif x100 >= 100000:
         want = {100000}
     else:
-        i = bisect_left(L.CLASSIC_C, x100)
-        cands = [L.CLASSIC_C[j] for j in (i - 1, i) if 0 <= j < len(L.CLASSIC_C)]
+        i = bisect_left(lad, x100)
+        cands = [lad[j] for j in (i - 1, i) if 0 <= j < len(lad)]
         dmin = min(abs(x100 - t) for t in cands)
         want = {t for t in cands if abs(x100 - t) == dmin}
     if ci not in want:
-        out.v("nearest-not-closest", {"band": _band(ci)}, x=raw, result=res, closest=sorted(want))
+        out.v("nearest-not-closest", dict(tags) if tags else {"band": _band(ci)}, x=raw, result=res, closest=sorted(want))
 
 
 _TICKSET = set(L.CLASSIC_C)
+_SETS = {}
+
+
+def _set_of(lad_c):
+    k = id(lad_c)
+    if k not in _SETS:
+        _SETS[k] = set(lad_c)
+    return _SETS[k]
 
 
 def _band(c):
@@ -132,6 +143,32 @@ def run(case):
             out.rule("nearest")
             _nearest_ok(Fraction(Decimal(str(x))), r, out, x)
         out.d("nearest:mid")
+        out.c("distinct_inputs", n)
+    elif kind == "nearest_ladders":
+        # the helper's second argument: the library's own cut-off tables for the other ladders, handed over as they are defined
+        # (the Betdaq one is a list, the finest one a tuple of one band), plus copies of the classic table as list and as tuple
+        n = 0
+        tables = [
+            ("betdaq", _U.BETDAQ_CUTOFFS, L.BETDAQ_C),
+            ("finest", ((1000, 100),), L.FINEST_C),
+            ("classic-list", [list(x) for x in _U.CUTOFFS], L.CLASSIC_C),
+            ("classic-tuple", tuple(_U.CUTOFFS), L.CLASSIC_C),
+        ]
+        for name, cut, lad_c in tables:
+            xs = [k / 1000 for k in range(900, 12000, 1 if name != "finest" else 3)] + [k / 100 for k in range(1200, 110000, 7)]
+            if name != "finest":
+                for a, b in zip(lad_c, lad_c[1:]):
+                    mid = (a + b) / 200
+                    xs += [mid, math.nextafter(mid, 0), math.nextafter(mid, 2000), a / 100, math.nextafter(a / 100, 0), math.nextafter(a / 100, 2000)]
+            xs += [0, 0.5, 1.0, 1.005, 1.01, 1000, 1000.0001, 1005, 1100]
+            for j, x in enumerate(xs):
+                r = U.get_nearest_price(x, cut)
+                out.rule("nearest")
+                n += 1
+                _nearest_ok(Fraction(Decimal(str(x))), r, out, x, lad_c, {"ladder": name})
+                if j % 11 == 0 and r == r and U.get_nearest_price(r, cut) != r:
+                    out.v("nearest-not-idempotent", {"ladder": name}, x=x, result=r)
+        out.d("nearest:ladders")
         out.c("distinct_inputs", n)
     elif kind == "ticks":
         for i in range(case["lo"], case["hi"]):
